@@ -252,6 +252,7 @@ pub fn alphabet(n: usize, c: &AlphaCfg) -> Vec<Dev> {
             }
         }
     }
+    devs.extend(crate::devs::syntax_devs(true, false, true, false));
     devs
 }
 
